@@ -7,14 +7,16 @@ import datetime as dt
 from vf import core
 from vf.core import CorrResult, Disagreement, Failure, coq_z
 from translator import dates as tr
+from translator import codecs_ext as tr2
 from . import C09 as d9
+from . import c11_ext as ext
 from .C09 import (oZ, oB, oL, oP, attempt, coq_spec, mk_py, spec_freq, rand_spec, py_spec, REG, FREQS, POS, MAXORD, ERRNAME,
                   hstep, h_try, _mix, M63, run_snippet, PRELUDE, Checker)
 
 ID = "C11"
 PROPS = "props/C11.v"
-GENERATED = [tr.OUT]
-CASE_DEPS = ["lib/CaseUtil.vo", "model/Codecs.vo"]
+GENERATED = [tr.OUT, tr2.OUT]
+CASE_DEPS = ["lib/CaseUtil.vo", "model/Codecs.vo", "model/CodecsExt.vo"]
 ALLOWED_AXIOMS: set = set()
 TRUSTED = [
     "translator/dates.py: SDMX_REXP_FORMATS (regex strings -> regex ASTs), every to_sdmx/__repr__/to_iso f-string (-> format "
@@ -24,6 +26,12 @@ TRUSTED = [
     "eval(repr(p)) is modelled on the structured term (constructor name, integer arguments); the text of repr is compared "
     "with the implementation and eval(repr(p)) == p is checked on the implementation",
     "CPython datetime/calendar as the calendar oracle (see C09)",
+    "translator/codecs_ext.py: the path of period_from_string / date_formatter through Databox.from_csv_file, _block_iterator, "
+    "_extract_periods_from_data_rows, _ExportBlock.__iter__ (pinned statement shapes, no other binding of the names), the int() "
+    "casts of Period.__init__/__add__/__sub__; the CSV reader/writer (csv module, numpy.genfromtxt), the mark -> frequency "
+    "decoding and Series.set_data are covered by the correspondence only (sheet_import / sheet_export / sheet_roundtrip)",
+    "numpy integer semantics in model/CodecsExt.v: a numpy scalar combined with an int is a numpy scalar, int(x) is a builtin "
+    "int, repr of a numpy scalar inside a tuple is np.int64(n) (numpy >= 2; widths and overflow are not modelled)",
 ]
 ASSUMPTIONS = [
     "supported calendar = years 1..9999 (SDMX/ISO strings use a four-digit year); integer periods: every integer",
@@ -48,6 +56,7 @@ NAMES = {1: "YEARLY", 2: "HALFYEARLY", 4: "QUARTERLY", 12: "MONTHLY", 365: "DAIL
 
 def translate(ctx):
     tr.run()
+    tr2.run()
 
 
 def str_digest(s: str) -> int:
@@ -126,9 +135,32 @@ def gen_case(rng, pool: list[str]) -> dict:
     return c
 
 
+EXT_KINDS = ("arith", "sheet_import", "sheet_export", "sheet_roundtrip")
+
+
+def gen_ext_case(rng) -> dict:
+    kind = rng.choice(["arith", "arith", "sheet_import", "sheet_import", "sheet_export", "sheet_roundtrip"])
+    if kind == "arith":
+        return ext.gen_arith(rng, cal_spec)
+    if kind == "sheet_import":
+        return ext.gen_sheet_import(rng, cal_spec)
+    return ext.gen_sheet_roundtrip(rng, cal_spec, kind)
+
+
+WORK_DIR = {"path": None}
+
+
 def run_case(c: dict):
     import irispie as ir
     kind = c["kind"]
+    if kind == "arith":
+        return ext.run_arith(c, oS)
+    if kind == "sheet_import":
+        return ext.run_sheet_import(c, WORK_DIR["path"])
+    if kind == "sheet_export":
+        return ext.run_sheet_export(c, WORK_DIR["path"], oS)
+    if kind == "sheet_roundtrip":
+        return ext.run_sheet_roundtrip(c, WORK_DIR["path"])
 
     def go():
         if kind == "from_sdmx":
@@ -168,6 +200,12 @@ def run_case(c: dict):
 
 def coq_case(c: dict) -> str:
     kind = c["kind"]
+    if kind == "arith":
+        return ext.coq_arith(c)
+    if kind == "sheet_import":
+        return ext.coq_sheet_import(c)
+    if kind in ("sheet_export", "sheet_roundtrip"):
+        return ext.coq_sheet_rt(c)
     if kind == "from_sdmx":
         return f"c_from_sdmx {coq_str(c['x'])}"
     if kind == "from_sdmx_as":
@@ -281,7 +319,7 @@ def block_plan(ctx):
     return blocks
 
 
-HEADER = d9.HEADER.replace("model.Dates.", "model.Dates model.Codecs.").replace(
+HEADER = d9.HEADER.replace("model.Dates.", "model.Dates model.Codecs gen.CodecsExtGen model.CodecsExt.").replace(
     "lib.CaseUtil", "lib.PyStr lib.CaseUtil") + """
 Definition c_from_list (xs : list string) : obs :=
   match xs with
@@ -311,8 +349,12 @@ def correspondence(ctx) -> CorrResult:
         except Exception:  # noqa
             pass
     nontrivial = set()
-    for _ in range(n):
-        c = gen_case(rng, pool)
+    import tempfile
+    WORK_DIR["path"] = tempfile.mkdtemp(prefix="c11_")
+    n_ext = ctx.scale(450, 8000)
+    every = (n + n_ext) // n_ext                   # the new kinds are heavier on the Coq side: spread them over the shards
+    for k in range(n + n_ext):
+        c = gen_ext_case(rng) if k % every == every - 1 else gen_case(rng, pool)
         o = run_case(c)
         items.append((f"codec:{c['kind']}", c, coq_case(c), o))
         d9._bump(dist["kinds"], c["kind"])
@@ -342,7 +384,10 @@ def correspondence(ctx) -> CorrResult:
     res.rule = ("one codec call per case through the public API (to_sdmx_string/str, repr, eval(repr), to_iso_string, "
                 "to_python_date, Period.from_sdmx_string with and without frequency, periods_from_sdmx_strings, "
                 "Frequency.from_sdmx_string, Period.from_iso_string, refrequent, and the two string round trips) on periods of all "
-                "six classes, on strings the library produced (optionally blank-padded) and on malformed strings; plus rolling "
+                "six classes, on strings the library produced (optionally blank-padded) and on malformed strings; arithmetic "
+                "histories with int / numpy offsets (period, type of .serial, repr text); multi-frequency sheets: import of "
+                "harness-written date columns (coinciding ISO texts under different marks, gaps, malformed cells, start_period_only), "
+                "date cells written by to_csv_file under each date formatter, and databox -> to_csv_file -> from_csv_file; plus rolling "
                 "digests of eleven codec results for every period of a block; non-trivial = the implementation returned a value; "
                 "distinct = distinct case text")
     res.samples = [{"case": it[1], "model_call": it[2][:200], "impl": str(it[3])[:200]} for it in (items[0], items[1], items[-1])]
@@ -405,6 +450,8 @@ def falsify(ctx, hints):
                 ck.check(f"refrequent:coarse_fine_coarse:{nm}->{NAMES[g]}", "coarse -> fine -> coarse leaves the original period",
                          {"p": P, "position": pos, "position_back": pos2, "fine": NAMES[g]},
                          pp + f"g = ir.Frequency({g})\nassert p.refrequent(g, position=pos).refrequent(p.frequency, position={pos2!r}) == p")
+    ext.falsify_sheets(ctx, ck)
+    ext.falsify_numpy(ctx, ck, NAMES)
     seen = {}
     for f_ in ck.fails:
         seen.setdefault(f_.key, f_)
